@@ -12,6 +12,7 @@ Monitors (all against the real functions through ctypes / the Python front end):
 """
 import json, math, os, random, sys
 from vf import core
+from vf.num import gt, nmax as max, nmin as min
 
 PROPERTY = "C11"
 EPS = 2.0 ** -52
@@ -110,7 +111,7 @@ def run_case(case):
             counters['forward'] += 1
             ex = max(abs(rel[i] - want[i]) for i in range(3)) / (mp.mpf(EPS) * (rs * cond * big + ps) + mp.mpf(10) ** -300)
             ev = max(abs(rel[i] - want[i]) for i in range(3, 6)) / (mp.mpf(EPS) * (vs * cond * big + pvs) + mp.mpf(10) ** -300)
-            if ex > 64 or ev > 64:
+            if gt(ex, 64) or gt(ev, 64):
                 add('orbit:forward-differs-from-definition', 'err/(eps scale cond)=%.3g/%.3g a=%r e=%r inc=%r Om=%r om=%r f=%r G=%r' % (float(ex), float(ev), a, e, inc, Om, om, f, G))
             # ---- back
             err2 = c_int(0)
@@ -124,11 +125,11 @@ def run_case(case):
             counters['retrograde'] += int(inc > math.pi / 2)
             counters['hyperbolic'] += int(hyp)
             tolc = 4096 * EPS * cond * big * cancel0
-            if abs(o.a - a) > tolc * abs(a) * cond:
+            if gt(abs(o.a - a), tolc * abs(a) * cond):
                 add('orbit:roundtrip-a', 'a in %r out %r (e=%r)' % (a, o.a, e))
-            if abs(o.e - e) > tolc * 4 + 1e-300:
+            if gt(abs(o.e - e), tolc * 4 + 1e-300):
                 add('orbit:roundtrip-e', 'e in %r out %r (a=%r, f=%r)' % (e, o.e, a, f))
-            if abs(o.inc - inc) > max(tolc, 3e-8 if icls in ('zero', 'tiny', 'pi', 'pi_minus') else 0):     # acos near 0/pi: sqrt(eps) conditioning
+            if gt(abs(o.inc - inc), max(tolc, 3e-8 if icls in ('zero', 'tiny', 'pi', 'pi_minus') else 0)):     # acos near 0/pi: sqrt(eps) conditioning
                 add('orbit:roundtrip-inc', 'inc in %r out %r' % (inc, o.inc))
             # ranges
             rng = dict(e=o.e >= 0, inc=0 <= o.inc <= math.pi)
@@ -172,15 +173,15 @@ def run_case(case):
                 return min(4 * math.sqrt(EPS * cancel0 * cond * amp), 64 * EPS * cancel0 * cond * amp / max(abs(math.sin(ang)), 1e-300))
             ecap = max(min(e, 1.0), 1e-8)
             tola = tola + angtol(Om) + angtol(om, 1 / ecap) + angtol(om + f) + angtol(f, 1 / ecap)
-            if angdiff(o.theta, o.Omega + sgn * (o.omega + o.f)) > tola:
+            if gt(angdiff(o.theta, o.Omega + sgn * (o.omega + o.f)), tola):
                 add('orbit:relation:theta', 'theta=%r Omega=%r omega=%r f=%r inc=%r' % (o.theta, o.Omega, o.omega, o.f, o.inc))
-            if angdiff(o.pomega, o.Omega + sgn * o.omega) > tola:
+            if gt(angdiff(o.pomega, o.Omega + sgn * o.omega), tola):
                 add('orbit:relation:pomega', 'pomega=%r Omega=%r omega=%r inc=%r' % (o.pomega, o.Omega, o.omega, o.inc))
-            if o.e > 1e-6 and not hyp and angdiff(o.l, o.Omega + sgn * (o.omega + o.M)) > tola * 4 + 16 * EPS * cond ** 1.5:
+            if o.e > 1e-6 and not hyp and gt(angdiff(o.l, o.Omega + sgn * (o.omega + o.M)), tola * 4 + 16 * EPS * cond ** 1.5):
                 add('orbit:relation:l', 'l=%r Omega=%r omega=%r M=%r inc=%r e=%r' % (o.l, o.Omega, o.omega, o.M, o.inc, o.e))
             # true longitude against the input: theta_in = Om + om + f (prograde) / Om - om - f (retrograde)
             sg_in = 1 if math.cos(inc) > 0 else -1
-            if angdiff(o.theta, Om + sg_in * (om + f)) > max(tola, 3e-8 * (1 if icls != 'gen' and icls != 'retro' else 0)) + 1e-7 * (ecls in ('zero', 'tiny')):
+            if gt(angdiff(o.theta, Om + sg_in * (om + f)), max(tola, 3e-8 * (1 if icls != 'gen' and icls != 'retro' else 0)) + 1e-7 * (ecls in ('zero', 'tiny'))):
                 add('orbit:roundtrip-theta', 'theta out %r, in %r (Om=%r om=%r f=%r inc=%r e=%r)' % (o.theta, (Om + sg_in * (om + f)) % TWO_PI, Om, om, f, inc, e))
             # Kepler's equation between M and f of the returned orbit
             if not hyp and o.e < 1 and o.e > 1e-8:
@@ -188,7 +189,7 @@ def run_case(case):
                 Mk = Ean - o.e * math.sin(Ean)
                 # E comes from acos(1-d/a)/e: sqrt(eps)-conditioned within ~1e-7 of pericentre/apocentre
                 # f = (omega+f) - omega inherits the acos conditioning of both; dM/df <= cond
-                if angdiff(Mk, o.M) > 4 * (angtol(o.f, 1 / ecap) + tola) * cond + 4096 * EPS * cancel0 * cond ** 1.5 / o.e:
+                if gt(angdiff(Mk, o.M), 4 * (angtol(o.f, 1 / ecap) + tola) * cond + 4096 * EPS * cancel0 * cond ** 1.5 / o.e):
                     add('orbit:relation:kepler-M-f', 'M=%r but f=%r e=%r gives M=%r' % (o.M, o.f, o.e, Mk % TWO_PI))
             elif hyp:
                 if o.e <= 1:
@@ -216,9 +217,9 @@ def run_case(case):
                     add('orbit:relation:T', 'T=%r n=%r M=%r: n(t-T)=%r (e=%r)' % (o.T, o.n, o.M, nT, o.e))
             # pal
             pom = o.pomega
-            if o.inc < math.pi / 2 and abs(o.pal_h - o.e * math.sin(pom)) > tola * (1 + o.e) or o.inc < math.pi / 2 and abs(o.pal_k - o.e * math.cos(pom)) > tola * (1 + o.e):
+            if o.inc < math.pi / 2 and gt(abs(o.pal_h - o.e * math.sin(pom)), tola * (1 + o.e)) or o.inc < math.pi / 2 and gt(abs(o.pal_k - o.e * math.cos(pom)), tola * (1 + o.e)):
                 add('orbit:relation:pal-hk', 'h=%r k=%r e=%r pomega=%r' % (o.pal_h, o.pal_k, o.e, pom))
-            if o.inc < math.pi / 2 and (abs(o.pal_ix - 2 * math.sin(o.inc / 2) * math.cos(o.Omega)) > tola * 4 or abs(o.pal_iy - 2 * math.sin(o.inc / 2) * math.sin(o.Omega)) > tola * 4):
+            if o.inc < math.pi / 2 and (gt(abs(o.pal_ix - 2 * math.sin(o.inc / 2) * math.cos(o.Omega)), tola * 4) or gt(abs(o.pal_iy - 2 * math.sin(o.inc / 2) * math.sin(o.Omega)), tola * 4)):
                 add('orbit:relation:pal-ixiy', 'ix=%r iy=%r inc=%r Omega=%r' % (o.pal_ix, o.pal_iy, o.inc, o.Omega))
             # Pal constructor: the particle rebuilt from (a, lambda, k, h, ix, iy) must be the particle the elements came from
             if o.inc < math.pi / 2 and 0 < o.e < 0.95 and o.a > 0:
@@ -226,13 +227,13 @@ def run_case(case):
                 counters['pal_rebuilds'] = counters.get('pal_rebuilds', 0) + 1
                 rr_ = math.sqrt((p.x - prim.x) ** 2 + (p.y - prim.y) ** 2 + (p.z - prim.z) ** 2)
                 dd_ = math.sqrt((pp.x - p.x) ** 2 + (pp.y - p.y) ** 2 + (pp.z - p.z) ** 2)
-                if dd_ > (1e-11 * cond * cancel + 64 * tola) * max(rr_, o.a):
+                if gt(dd_, (1e-11 * cond * cancel + 64 * tola) * max(rr_, o.a)):
                     add('pal:rebuilt-particle-differs' + (':e-0.2-0.3' if 0.2 < o.e < 0.3 else ''), 'a=%r e=%r inc=%r: particle from pal elements is %.3e away (r=%r)' % (o.a, o.e, o.inc, dd_, rr_))
             ev_ = [o.evec.x, o.evec.y, o.evec.z]
             hv_ = [o.hvec.x, o.hvec.y, o.hvec.z]
-            if abs(math.sqrt(sum(q * q for q in ev_)) - o.e) > 16 * EPS * (1 + o.e):
+            if gt(abs(math.sqrt(sum(q * q for q in ev_)) - o.e), 16 * EPS * (1 + o.e)):
                 add('orbit:relation:evec-norm', '|evec| %r e %r' % (math.sqrt(sum(q * q for q in ev_)), o.e))
-            if abs(sum(ev_[i] * hv_[i] for i in range(3))) > 1024 * EPS * cond * cancel * o.h * (o.e + 1e-300) + 1e-300:
+            if gt(abs(sum(ev_[i] * hv_[i] for i in range(3))), 1024 * EPS * cond * cancel * o.h * (o.e + 1e-300) + 1e-300):
                 add('orbit:relation:evec-perp-hvec', 'evec.hvec = %r (h=%r e=%r)' % (sum(ev_[i] * hv_[i] for i in range(3)), o.h, o.e))
             # rebuild from the returned elements
             if inc < math.pi - 1e-7:
@@ -245,7 +246,7 @@ def run_case(case):
                     ex2 = max(abs(v2[i] - vals[i]) for i in range(3)) / (EPS * float(rs * cond ** 2 * big * cancel0 + ps) + 1e-300)
                     ev2 = max(abs(v2[i] - vals[i]) for i in range(3, 6)) / (EPS * float(vs * cond ** 2 * big * cancel0 + pvs) + 1e-300)
                     lim = 4096 + tola / EPS if (ecls not in ('zero', 'tiny') and icls in ('gen', 'retro')) else 3e9     # degenerate angles: sqrt(eps)-conditioned reconstruction
-                    if ex2 > lim or ev2 > lim:
+                    if gt(ex2, lim) or gt(ev2, lim):
                         add('orbit:roundtrip-cartesian', 'rebuild error %.3g/%.3g (eps scale cond^2) a=%r e=%r inc=%r Om=%r om=%r f=%r' % (ex2, ev2, a, e, inc, Om, om, f))
             cells.add(json.dumps(['elements', ecls, icls, bool(hyp)]))
     elif kind == 'anomaly':
@@ -269,11 +270,11 @@ def run_case(case):
                 cond = 1 / abs(1 - e)
                 if not hyp:
                     res = angdiff(E - e * math.sin(E), M)
-                    if res > 64 * EPS * (1 + abs(M)) * max(1.0, cond ** 0.5) + 64 * EPS * abs(E):
+                    if gt(res, 64 * EPS * (1 + abs(M)) * max(1.0, cond ** 0.5) + 64 * EPS * abs(E)):
                         add('anomaly:%s:kepler-residual:elliptic' % src, 'e=%r M=%r E=%r residual %r' % (e, M, E, res))
                 else:
                     res = abs(e * math.sinh(E) - E - M)
-                    if res > 256 * EPS * (1 + abs(M) + e * abs(math.sinh(E))):
+                    if gt(res, 256 * EPS * (1 + abs(M) + e * abs(math.sinh(E)))):
                         add('anomaly:%s:kepler-residual:hyperbolic' % src, 'e=%r M=%r E=%r residual %r' % (e, M, E, res))
                 # E -> f half-angle relation
                 f1 = clib.reb_E_to_f(c_double(e), c_double(E)) if src == 'C' else pyE_to_f(e, E)
@@ -281,10 +282,10 @@ def run_case(case):
                     fw = 2 * math.atan2(math.sqrt(1 + e) * math.sin(E / 2), math.sqrt(1 - e) * math.cos(E / 2))
                 else:
                     fw = 2 * math.atan(math.sqrt((e + 1) / (e - 1)) * math.tanh(E / 2))
-                if not math.isfinite(f1) or angdiff(f1, fw) > 1024 * EPS * (1 + abs(E)) * cond ** 0.5:
+                if not math.isfinite(f1) or gt(angdiff(f1, fw), 1024 * EPS * (1 + abs(E)) * cond ** 0.5):
                     add('anomaly:%s:E_to_f' % src, 'e=%r E=%r f=%r expected %r' % (e, E, f1, fw))
                 f2 = clib.reb_M_to_f(c_double(e), c_double(M)) if src == 'C' else pyM_to_f(e, M)
-                if not math.isfinite(f2) or angdiff(f2, f1) > 64 * EPS * (1 + abs(f1)):
+                if not math.isfinite(f2) or gt(angdiff(f2, f1), 64 * EPS * (1 + abs(f1))):
                     add('anomaly:%s:M_to_f-differs-from-E_to_f(M_to_E)' % src, 'e=%r M=%r: %r vs %r' % (e, M, f2, f1))
             cells.add(json.dumps(['anomaly', bool(hyp), M in (0.0, math.pi, -math.pi, TWO_PI, -TWO_PI)]))
     elif kind == 'frontend':
